@@ -4,6 +4,7 @@ import (
 	"fmt"
 	"strings"
 
+	"verif/internal/drive"
 	"verif/internal/fakeredis"
 	"verif/internal/harness"
 
@@ -218,6 +219,60 @@ func readsModeStateOutsideDb0(reqs []fakeredis.Req) bool {
 	return false
 }
 
+// foreignFields returns, for every replication id other than the operation's own ids, the fields it
+// owns anywhere in the bookkeeping (checkpoint hashes in every database and the index): the live
+// positions of the other inputs that share the target.
+func foreignFields(dbs []fakeredis.DB, own map[string]bool) map[string]string {
+	out := map[string]string{}
+	for i, d := range dbs {
+		for k, o := range d {
+			if !drive.Reserved([]byte(k)) || o.Kind != fakeredis.KHash {
+				continue
+			}
+			for f, v := range o.Hash {
+				id := f
+				if j := strings.IndexByte(f, '_'); j == 40 {
+					id = f[:40]
+				}
+				if len(id) != 40 || own[id] {
+					continue
+				}
+				if strings.HasSuffix(f, "_mtime") {
+					continue
+				}
+				out[fmt.Sprintf("db%d %s %s", i, k, f)] = string(v)
+			}
+		}
+	}
+	return out
+}
+
+// checkBystanders: a rename / re-key of one input's checkpoint leaves the entries of every other
+// replication id exactly as they were, at every stop point.
+func checkBystanders(run *harness.Run, cc *caseCtx, l *opLog, ps *prefixState, m marks) {
+	own := map[string]bool{cc.OldCfg.ID1: true, cc.OldCfg.ID2: true, cc.NewCfg.ID1: true, cc.NewCfg.ID2: true}
+	before := foreignFields(l.S0, own)
+	if len(before) == 0 {
+		return
+	}
+	after := foreignFields(ps.DBs, own)
+	run.Count("bystander_fields_compared", int64(len(before)))
+	for k, v := range before {
+		if w, ok := after[k]; !ok || w != v {
+			got := "removed"
+			if ok {
+				got = "changed to " + shortVal(w)
+			}
+			run.Violation(fmt.Sprintf("%s|other-input-entry-touched|%s", cc.Kind, m.class(ps.N, l.N)), cc.Key,
+				fmt.Sprintf("%s stopped after request %d of %d: field %q of another replication id (another input sharing the target) was %s; it held %s before",
+					cc.Kind, ps.N, l.N, k, got, shortVal(v)),
+				map[string]any{"rep": cc.Rep, "layout_class": cc.Layout, "initial_bookkeeping": bookDump(l.S0), "state_at_stop": bookDump(ps.DBs),
+					"operation_requests": reqDump(l.Reqs), "old_config": cc.OldCfg, "new_config": cc.NewCfg})
+			return
+		}
+	}
+}
+
 // sweepOp runs the next start (new configuration, uncut) on every distinct prefix state of
 // the operation and reports the clauses.
 func sweepOp(run *harness.Run, cc *caseCtx, l *opLog, m marks) {
@@ -227,6 +282,9 @@ func sweepOp(run *harness.Run, cc *caseCtx, l *opLog, m marks) {
 	run.Count("request_prefixes_covered", l.N+1)
 	run.Seen("op_request_counts", fmt.Sprintf("%s:%d", cc.Kind, l.N))
 	for _, ps := range states {
+		if !m.GC && !strings.HasPrefix(cc.Kind, "mode-switch") {
+			checkBystanders(run, cc, l, ps, m)
+		}
 		t := newTarget(ps.DBs)
 		f := nextStart(cc.SrcNew, t.Addr(), cc.NewCfg)
 		startReqs := t.Requests()
